@@ -28,7 +28,7 @@ META = {
                    'sets of recordings over categories that are prefixes of one another (OpA, OpAB, OpA_b, OpB), explicit id lists in tape-chosen order '
                    'or lookup-driven selection (with incomplete recordings and limits), a tuner that fails for a tape-chosen subset of categories, and '
                    'the per-category result generators consumed in a tape-chosen interleaving.  A journal written by the playback function, extractor '
-                   'and comparator of every tuning proves who played what. Also: 22+ explicit ids of one category (the default lookup limit is 20) and lookup limits given next to explicit ids.'),
+                   'and comparator of every tuning proves who played what. Also: 22+ explicit ids of one category (the default lookup limit is 20) and lookup limits given next to explicit ids. A recording saved while the result generators are still being consumed.'),
     'level_note': 'Trusted: routing journal (harness-owned tunings), fake S3 / directory order, fake multiprocessing for the dedicated-process sample.',
     'rule': ('evaluation = one studio run; non-trivial = at least two categories with recordings where one category name is a prefix of another, or a failing '
              'tuner, or interleaved consumption; distinct = distinct event-log digest.'),
